@@ -177,12 +177,14 @@ def gen_tx_fields(repo, args, lines):
 
 
 def gen_node(repo, args, lines):
-    """For `impl Node for T`: the functional specification of one visitor pass over T,
-    generated from the type definition: every child (Expression, or a container / node type that
-    itself implements Node) is visited, left to right in declaration order, errors propagate,
-    all other fields are kept."""
+    """For `impl Node for T`: one visitor pass over T, generated from the type definition.
+      node_ok_T(x, t, v)   every child of x (an Expression, or a container / node type that itself
+                           implements Node) is replaced in t by its visited image, all other fields
+                           are kept (for enums: same variant)
+      node_err_T(x, v)     some child's visit failed
+    The visitor is a pure function of the expression (Visitor::reduce leaves it unchanged), so the
+    order in which the children are visited does not matter for the Ok case."""
     types = parse_types(repo)
-    wanted = args
     out = []
     node_types = set(['Expression', 'StructExpr', 'AssetExpr', 'InputQuery', 'Param', 'BuiltInOp', 'CompilerOp', 'Coerce', 'Input', 'Output',
                       'Validity', 'Mint', 'Collateral', 'Metadata', 'Signers', 'AdHocDirective', 'Tx'])
@@ -194,49 +196,40 @@ def gen_node(repo, args, lines):
         m = re.match(r'(Vec|Option|Box)<(.*)>$', t)
         if m:
             return is_node(m.group(2))
-        if t == 'HashMap<String, Expression>':
-            return True
-        return False
+        return t == 'HashMap<String, Expression>'
 
-    def chain(items, build):
-        """items: list of (binder, expr-to-visit or None if kept as is)"""
-        text = build
-        for b, e in reversed(items):
-            if e is None:
-                continue
-            text = 'match %s.sp_visit(v) { Err(e) => Err(e), Ok(%s) => %s }' % (e, b, text)
-        return text
-
-    for name in wanted:
+    for name in args:
         kind, body = types[name]
         if kind == 'struct':
-            items = []
-            inits = []
+            oks, errs = [], []
             for f, t in body:
-                b = 'n_' + f.replace('r#', '')
                 if is_node(t):
-                    items.append((b, 'x.%s' % f))
-                    inits.append('%s: %s' % (f, b))
+                    oks.append('x.%s.visit_rel(v, Ok(t.%s))' % (f, f))
+                    errs.append('(exists|e: Error| x.%s.visit_rel(v, Err(e)))' % f)
                 else:
-                    inits.append('%s: x.%s' % (f, f))
-            text = chain(items, 'Ok(%s { %s })' % (name, ', '.join(inits)))
-            out.append('pub open spec fn node_%s<V: Visitor>(x: %s, v: V) -> Result<%s, Error> {\n    %s\n}' % (name, name, name, text))
+                    oks.append('t.%s == x.%s' % (f, f))
+            out.append('pub open spec fn node_ok_%s<V: Visitor>(x: %s, t: %s, v: V) -> bool {\n%s\n}' % (name, name, name, '\n'.join('    &&& ' + o for o in oks)))
+            out.append('pub open spec fn node_err_%s<V: Visitor>(x: %s, v: V) -> bool {\n%s\n}' % (name, name, '\n'.join('    ||| ' + o for o in errs) if errs else '    false'))
         else:
-            arms = []
+            arms, earms = [], []
             for vname, ts in body:
+                if isinstance(ts, dict):
+                    raise AnchorLost('struct-like variant %s::%s' % (name, vname))
                 xs = ['a%d' % i for i in range(len(ts))]
-                items = []
-                args_ = []
-                for a, t in zip(xs, ts):
-                    if is_node(t):
-                        items.append(('n' + a, a))
-                        args_.append('n' + a)
-                    else:
-                        args_.append(a)
+                ys = ['b%d' % i for i in range(len(ts))]
                 pat = '%s::%s%s' % (name, vname, '(%s)' % ', '.join(xs) if xs else '')
-                build = 'Ok(%s::%s%s)' % (name, vname, '(%s)' % ', '.join(args_) if xs else '')
-                arms.append('        %s => %s,' % (pat, chain(items, build)))
-            out.append('pub open spec fn node_%s<V: Visitor>(x: %s, v: V) -> Result<%s, Error> {\n    match x {\n%s\n    }\n}' % (name, name, name, '\n'.join(arms)))
+                pat2 = '%s::%s%s' % (name, vname, '(%s)' % ', '.join(ys) if ys else '')
+                conj, disj = [], []
+                for a, b, t in zip(xs, ys, ts):
+                    if is_node(t):
+                        conj.append('%s.visit_rel(v, Ok(%s))' % (a, b))
+                        disj.append('(exists|e: Error| %s.visit_rel(v, Err(e)))' % a)
+                    else:
+                        conj.append('%s == %s' % (b, a))
+                arms.append('        (%s, %s) => %s,' % (pat, pat2, ' && '.join(conj) or 'true'))
+                earms.append('        %s => %s,' % (pat, ' || '.join(disj) or 'false'))
+            out.append('pub open spec fn node_ok_%s<V: Visitor>(x: %s, t: %s, v: V) -> bool {\n    match (x, t) {\n%s\n        _ => false,\n    }\n}' % (name, name, name, '\n'.join(arms)))
+            out.append('pub open spec fn node_err_%s<V: Visitor>(x: %s, v: V) -> bool {\n    match x {\n%s\n    }\n}' % (name, name, '\n'.join(earms)))
     return '\n'.join(out) + '\n', {}
 
 
